@@ -709,6 +709,49 @@ def interleave_output(ctx, rep, se2, fn2, b2, stmts, digests, EVEN_N, local_of):
                 fin = list(se2.final_states.values())
                 rv = canon(ctx, se2, se2.ret)
                 good = bool(fin) and all(strip(se2.read(st, R)) == rv for st in fin)
+    if not good and set(digests) == {"even", "odd"}:
+        # K = core::array::from_fn(|i| if i % 2 == 0 { G[i / 2] } else { H[i / 2] }): the closure is
+        # decided for each of the 40 positions - its test folds at that position and the element
+        # it yields must be G[i / 2] for even i, H[i / 2] for odd i
+        ff = [i for i in se2.term_info.values() if i.get("k") == "call" and i["name"] in ("core::array::from_fn", "std::array::from_fn")]
+        if len(ff) == 1 and len(ff[0].get("locargs", ())) == 1:
+            cl = ff[0]["locargs"][0]
+            out_ty = se2.loc_ty(ff[0]["dest"]) if ff[0].get("dest") is not None and ff[0]["dest"][0] == "local" else None
+            if cl[0] == "agg" and cl[1] == "closure" and out_ty is not None and out_ty.k == "array" and out_ty.len == 40:
+                caps = {}
+                for k_, c_ in enumerate(cl[4]):
+                    v_ = strip(util.value_before_terminator(se2, ff[0]["site"][1], c_[1])) if c_[0] == "ref" and c_[1][0] == "local" else strip(c_)
+                    while util.is_call(v_) and (v_[1] in util.IDENT_CALLS or "deref" in v_[1].lower()) and len(v_[2]) == 1:
+                        v_ = strip(v_[2][0])
+                    for tag in ("even", "odd"):
+                        if v_ == digests[tag]:
+                            caps[k_] = tag
+                ok_all = len(caps) == 2 and sorted(caps.values()) == ["even", "odd"]
+                why = "from_fn closure does not capture the two digests"
+                for i_ in range(40):
+                    if not ok_all:
+                        break
+                    r_ = util.eval_closure_at(ctx, cl[2], i_)
+                    r_ = strip(r_) if r_ is not None else ("?",)
+                    src_k = pos = None
+                    if r_[0] in ("index", "cindex"):
+                        b_ = strip(r_[1])
+                        while util.is_call(b_) and (b_[1] in util.IDENT_CALLS or "deref" in b_[1].lower()) and len(b_[2]) == 1:
+                            b_ = strip(b_[2][0])
+                        while b_[0] == "deref":
+                            b_ = strip(b_[1])
+                        if b_[0] == "field" and strip(b_[1]) == ("param", 1):
+                            src_k = b_[2]
+                        pos = r_[2] if r_[0] == "cindex" else (strip(r_[2])[1] if strip(r_[2])[0] == "int" else None)
+                    if caps.get(src_k) != ("even" if i_ % 2 == 0 else "odd") or pos != i_ // 2:
+                        ok_all = False
+                        why = "from_fn element %d is not %s[%d]" % (i_, "G" if i_ % 2 == 0 else "H", i_ // 2)
+                if ok_all:
+                    rv = canon(ctx, se2, se2.ret)
+                    rs_ = strip(rv)
+                    whole_ = (util.is_call(rs_) and rs_[1].endswith("SessionKey::from_le_bytes") and len(rs_[2]) == 1 and strip(rs_[2][0]) == strip(ff[0]["term"])) or (rs_[0] == "agg" and rs_[1] == "adt" and rs_[2].endswith("SessionKey") and len(rs_[4]) == 1 and strip(rs_[4][0]) == strip(ff[0]["term"]))
+                    good = bool(whole_) or rs_ == strip(ff[0]["term"])      # (canon looks through the key's constructor)
+                    why = "" if good else "the from_fn array is not what SessionKey::from_le_bytes receives"
     rep.check(good, "interleave", fn2, "interleave-output", "K[2i] = G[i], K[2i+1] = H[i] over the 20 digest positions", "the two digests are not interleaved as K[2i] = G[i], K[2i+1] = H[i]: " + why, b2.loc())
 
 
